@@ -1113,14 +1113,15 @@ func (w *wireCtx) ruleEscaper() {
 	cond := ""
 	ast.Inspect(fd.Body, func(n ast.Node) bool {
 		if cc, ok := n.(*ast.CaseClause); ok && len(cc.List) == 1 {
-			s := core.ExprStr(cc.List[0])
-			if strings.Contains(s, "r < ' '") {
+			// the rune variable printed as its type: what it is called does not matter
+			s := core.NormExpr(w.info, cc.List[0])
+			if strings.Contains(s, "‹rune› < ' '") {
 				cond = s
 			}
 		}
 		return true
 	})
-	if strings.Contains(cond, "r < ' '") && strings.Contains(cond, `r == '"'`) && strings.Contains(cond, `r == '\\'`) {
+	if strings.Contains(cond, "‹rune› < ' '") && strings.Contains(cond, `‹rune› == '"'`) && strings.Contains(cond, `‹rune› == '\\'`) {
 		o.Auto("escapes on %s", cond)
 	} else {
 		o.Fail("escape condition %q does not cover control characters, '\"' and '\\\\'", cond)
